@@ -34,7 +34,9 @@ Definition apply_op (c : cfg) (m : mesh row) (o : cop) : option (mesh row) :=
    C08's Update = combine_first on the table concerned *)
 Inductive edit :=
 | EditNodes (new : table row)
-| EditNodal (k : nat) (new : table row).
+| EditNodal (k : nat) (new : table row)
+| EditXyz (rows : list row)        (* fem_data.nodes.data = xyz : C08's SetData on the node table *)
+| EditConn (rows : list conn).     (* fem_data.elements.data = conn on a single-type mesh *)
 
 Definition apply_edit (m : mesh row) (e : edit) : mesh row :=
   match e with
@@ -44,6 +46,12 @@ Definition apply_edit (m : mesh row) (e : edit) : mesh row :=
       {| nodes := nodes m; elems := elems m;
          nodal := map (fun nv => if Nat.eqb (fst nv) k then (k, combine_first new (snd nv)) else nv) (nodal m);
          elemental := elemental m |}
+  | EditXyz rows => {| nodes := combine (ids (nodes m)) rows; elems := elems m; nodal := nodal m;
+                       elemental := elemental m |}
+  | EditConn rows =>
+      {| nodes := nodes m;
+         elems := match elems m with [(t, b)] => [(t, combine (ids b) rows)] | e => e end;
+         nodal := nodal m; elemental := elemental m |}
   end.
 
 Definition blocks_eqb := list_eqb' block_eqb.
